@@ -844,8 +844,9 @@ def rule_flush_schedules(ctx):
         pb = [i for i, e in enumerate(p.events) if e.kind == "call" and e.target == P + "Global::push_bag"]
         if not pb:
             continue
-        ok = any(sets_flag(e) for e in p.events[pb[-1]:])
-        r.instance("defer: a bag overflow (push_bag) is followed by scheduling a collection", ok)
+        # before or after the push: must_collect stays set until the next outermost unpin of this thread
+        ok = any(sets_flag(e) for e in p.events)
+        r.instance("defer: a bag overflow (push_bag) comes with scheduling a collection", ok)
         if not ok:
             r.violate(db.name, "overflow", "a full bag is pushed to the global queue without scheduling a collection",
                       p.events[pb[-1]].loc())
@@ -1124,14 +1125,18 @@ def rule_reactivate(ctx):
                       "release_handle) after it through a scope guard", ra.loc(0))
     # unwind edge: the call of f has a cleanup target that drops the ScopeGuard local
     okw = False
-    for bi, blk in enumerate(ra.blocks):
+    # (the call of the user's closure may sit in a helper a refactoring shared between repin and reactivate_after: every
+    # helper body that reactivate_after reaches through refactoring helpers is searched)
+    cands = [ra] + [prog.bodies[h] for h in prog.auto_inline() if ra.name in prog.path_roots(h)]
+    for rab in cands:
+      for bi, blk in enumerate(rab.blocks):
         t = blk["term"]
-        if t["k"] == "call" and "call_once" in (Callee(t).target or ""):
+        if t["k"] == "call" and "call_once" in (Callee(t).target or "") and rab.kind != "closure":
             u = t.get("unwind")
             seen = set()
             while u is not None and u not in seen:
                 seen.add(u)
-                tt = ra.blocks[u]["term"]
+                tt = rab.blocks[u]["term"]
                 if tt["k"] == "drop" and "ScopeGuard" in tt["ty"]:
                     okw = True
                     break
